@@ -2,15 +2,26 @@
 //@ include specenv.v.rs
 //@ item src/word.rs struct SegPos
 //@ item src/word.rs impl SegPos members=new,at_word_start,at_syll_start,reversed,at_word_end,increment
-//@ item src/word.rs impl Word members=in_bounds,out_of_bounds,reverse
-//@ item src/subrule.rs impl SubRule members=get_exceptions,match_before_env,match_after_env,insertion_match_exceptions,context_match,context_match_ipa,context_match_matrix,context_match_syll,context_match_structure,context_match_var,context_match_set,context_match_option,context_match_ellipsis
+//@ item src/word.rs impl Word members=in_bounds,out_of_bounds,reverse,get_seg_at,seg_length_at
+//@ item src/subrule.rs type SylPos
+//@ item src/subrule.rs type BndPos
+//@ item src/subrule.rs type SetInd
+//@ item src/subrule.rs enum MatchElement
+//@ item src/subrule.rs impl SubRule members=get_contexts,get_exceptions,insertion_after,insertion_before,insertion_between,insertion_match,match_ipa_with_modifiers,input_match_ipa,input_match_syll_bound,match_before_env,match_after_env,insertion_match_exceptions,context_match,context_match_ipa,context_match_matrix,context_match_syll,context_match_structure,context_match_var,context_match_set,context_match_option,context_match_ellipsis
 //@ stub SegPos::reversed
 //@ stub SegPos::at_word_end
 //@ stub SegPos::increment
 //@ stub Word::in_bounds
 //@ stub Word::out_of_bounds
 //@ stub Word::reverse
+//@ stub Word::get_seg_at
+//@ stub Word::seg_length_at
+//@ stub SubRule::match_ipa_with_modifiers
+//@ stub SubRule::get_contexts
 //@ stub SubRule::get_exceptions
+//@ stub SubRule::insertion_after
+//@ stub SubRule::insertion_before
+//@ stub SubRule::insertion_between
 //@ stub SubRule::match_before_env
 //@ stub SubRule::match_after_env
 //@ stub SubRule::context_match_ipa
@@ -34,6 +45,12 @@ pub uninterp spec fn at_end(p: SegPos, w: Word) -> bool;             // SegPos::
 pub uninterp spec fn bef_spec(sr: SubRule, states: Seq<Item>, w: Word, p: SegPos, ins: bool, is_context: bool) -> Result<bool, RuleRuntimeError>;
 pub uninterp spec fn aft_spec(sr: SubRule, states: Seq<Item>, w: Word, p: SegPos, ins: bool, inc: bool, is_context: bool) -> Result<bool, RuleRuntimeError>;
 pub uninterp spec fn ipa_spec(sr: SubRule, s: Segment, mods: Option<Modifiers>, w: Word, p: SegPos) -> Result<bool, RuleRuntimeError>;
+pub uninterp spec fn seg_at(w: Word, p: SegPos) -> Segment;               // Word::get_seg_at on an in-bounds position
+pub uninterp spec fn seglen(w: Word, p: SegPos) -> int;                  // Word::seg_length_at (run of identical segments)
+pub uninterp spec fn mods_spec(sr: SubRule, s: Segment, m: Modifiers, w: Word, p: SegPos) -> Result<bool, RuleRuntimeError>;
+// derive(PartialEq) on Segment is structural (trusted; discharged by the Kani derive-eq harness)
+pub assume_specification[ <Segment as PartialEq>::eq ](a: &Segment, b: &Segment) -> (r: bool)
+    ensures r == (*a == *b);
 // trusted std contract: slice::reverse
 pub assume_specification<T>[ <[T]>::reverse ](s: &mut [T])
     ensures final(s)@ == old(s)@.reverse();
@@ -43,6 +60,12 @@ pub assume_specification<T>[ <[T]>::reverse ](s: &mut [T])
 impl PartialEq for ParseElement {
     #[verifier::external_body]
     fn eq(&self, other: &Self) -> (r: bool) ensures r == (*self == *other) { unimplemented!() }
+}
+/// n steps of SegPos::increment
+pub open spec fn pinc_n(p: SegPos, w: Word, n: int) -> SegPos
+    decreases n
+{
+    if n <= 0 { p } else { pinc(pinc_n(p, w, n - 1), w) }
 }
 /// the kinds an environment element can have (the parser never puts `*`, `&` or a nested environment there)
 pub open spec fn env_element_kind(k: ParseElement) -> bool {
@@ -115,4 +138,52 @@ pub open spec fn env_element_kind(k: ParseElement) -> bool {
                     Ok(false) => r == Ok::<bool, RuleRuntimeError>(false) && *final(pos) == *old(pos),
                     Err(e) => r == Err::<bool, RuleRuntimeError>(e) && *final(pos) == *old(pos),
                 })),
+//@ end
+
+// =================================================================== insertion_match (where an insertion rule inserts)
+//@ contract SubRule::get_contexts ret=r
+    ensures self.context is None ==> r@.len() == 0,
+//@ end
+//@ contract SubRule::insertion_match ret=r
+    // the parser never yields a rule without output elements (EmptyOutput) -- precondition, unchecked at the call site
+    requires self.output@.len() > 0,
+    ensures
+        /*#insertion_match.no_environment_is_an_error C02*/ (self.context is None && self.except is None) ==> r is Err,
+//@ end
+
+// =================================================================== input side: a literal, a syllable boundary
+//@ contract Word::get_seg_at ret=r
+    ensures r == (if pos_in_bounds(*self, seg_pos) { Some(seg_at(*self, seg_pos)) } else { None::<Segment> }),
+//@ end
+//@ contract Word::seg_length_at ret=r
+    // proved for the real function in the `positions` / `supras` kernels: the run has at least the segment itself
+    ensures r as int == seglen(*self, seg_index), r >= 1,
+//@ end
+//@ contract SubRule::match_ipa_with_modifiers ret=r
+    ensures r == mods_spec(*self, *seg, *mods, *word, *pos),
+//@ end
+//@ attr SubRule::input_match_ipa
+#[verifier::loop_isolation(false)]
+//@ end
+//@ contract SubRule::input_match_ipa ret=r
+    requires pos_in_bounds(*word, *old(pos)),
+    ensures
+        /*#input_literal.captures_the_position_iff_it_matched C03*/ r matches Ok(b) ==> (
+            b == (match *mods { None => *s == seg_at(*word, *old(pos)), Some(m) => mods_spec(*self, *s, m, *word, *old(pos)) == Ok::<bool, RuleRuntimeError>(true) })
+            && final(captures)@ == (if b { old(captures)@.push(MatchElement::Segment(*old(pos), None)) } else { old(captures)@ })),
+        /*#input_literal.steps_over_the_rest_of_a_long_segment C03*/ r is Ok ==> *final(pos) == pinc_n(*old(pos), *word, seglen(*word, *old(pos)) - 1),
+        r matches Err(e) ==> (*mods matches Some(m) && mods_spec(*self, *s, m, *word, *old(pos)) == Err::<bool, RuleRuntimeError>(e)),
+//@ end
+//@ loop_each_ghost_before SubRule::input_match_ipa while seg_length > (\d+)
+    let ghost p_in = *pos;
+    let ghost n_in = seg_length as int;
+//@ end
+//@ loop_each SubRule::input_match_ipa while seg_length > (\d+)
+    invariant
+        1 <= seg_length <= n_in, *pos == pinc_n(p_in, *word, n_in - seg_length),
+    decreases seg_length,
+//@ end
+//@ contract SubRule::input_match_syll_bound ret=r
+    ensures /*#input_boundary.matches_at_segment_index_zero C03*/ r == (pos.seg_index == 0),
+        final(captures)@ == (if r { old(captures)@.push(MatchElement::SyllBound(pos.syll_index, None)) } else { old(captures)@ }),
 //@ end
